@@ -2,6 +2,7 @@
 Model: coq/Model/C06_{Terminal,Renderer,Run}.v; theorems: coq/Props/C06.v.
 Helpers: c06_term.py (tokeniser + Python terminal), c06_impl.py (drives the real
 Renderer on Vt100_Output(StringIO)), c06_gen.py (generators), c06_oracle.py."""
+import collections
 import itertools
 
 from common import *  # noqa
@@ -17,6 +18,9 @@ MODELS = [("c06", "Extract/ExC06.v", "run_C06")]
 
 # --------------------------------------------------------------------------
 # implementation runner: real Renderer -> text -> tokens -> Python terminal
+
+CHOICE_EVENTS = collections.Counter()
+
 
 def nrows_of(spec):
     return max([op[4] for op in spec["ops"] if op[0] == "render"] + [0]) + 2
@@ -44,7 +48,41 @@ def impl_case(spec):
         if (op[0] == "render" and op[2]) or op[0] == "reset":
             t.shift_origin(t.cy)
         res.append([toks, t.dump(nrows)])
+    CHOICE_EVENTS["erase_or_scroll_fill_with_pen_other_than_reset"] += t.nz_erase
+    CHOICE_EVENTS["text_written_while_autowrap_on"] += t.aw_text
     return case, res, outs, pens
+
+
+def in_theorem_domain(scr, W):
+    """wf_screen of Props/C06.v transcribed (the hypotheses of the theorems on one
+    screen): in the visible columns 0..W-1 every cell is narrow with a text, wide
+    (not straddling the right edge, followed by its '' shadow) or a shadow right
+    after a wide cell; rows live below Screen.height; the cursor column is inside.
+    -> (in domain, has a wide cell in a visible column)"""
+    from prompt_toolkit.utils import get_cwidth
+    ok, wide = True, False
+    if scr["height"] < 0:
+        ok = False
+    cur = scr["cursor"] if scr["cursor"] is not None else (0, 0)
+    if not (0 <= cur[0] <= W - 1) or cur[1] < 0:
+        ok = False
+    for y, row in scr["rows"].items():
+        if y >= scr["height"] and row:
+            ok = False
+        def wd(x):
+            return get_cwidth(row[x][0]) if x in row else 1
+        for x in range(W):
+            ch = row[x][0] if x in row else " "
+            w = wd(x)
+            if w == 1 and ch != "":
+                continue
+            if w == 2 and ch != "" and x + 1 <= W - 1 and wd(x + 1) == 0:
+                wide = True
+                continue
+            if w == 0 and ch == "" and x >= 1 and wd(x - 1) == 2:
+                continue
+            ok = False
+    return ok, wide
 
 
 def default_has_style(spec, cfg):
@@ -149,8 +187,17 @@ def report_fails(chk, spec, fails, extra_tags, prefix, allow_shrink):
     known finding."""
     unknown = False
     seen = set()
+    # operations at which the oracle itself shows the cursor desynchronised by an orphan shadow
+    # cell (finding C06-F2b): _cursor_pos stays off by one until the next full repaint, so later
+    # mismatches in the same incremental window (any row) are consequences of that finding
+    desync = [f[0] for f in fails if f[3].get("what") == "cursor" and covered_wide_half(spec, f[0], f[3]) == 1]
     for f in fails:
         tags = dict(oracle_tags(spec, f), **extra_tags)
+        tags["cursor_desync_since_orphan_shadow"] = 0
+        if tags.get("covered_wide_half") == 0 and f[3].get("what") in ("cell", "cursor"):
+            window = screens_since_full_repaint(spec, f[0])
+            if any(j < f[0] and any(spec["ops"][j] is o for o in window) for j in desync):
+                tags["cursor_desync_since_orphan_shadow"] = 1
         key = json.dumps(tags, sort_keys=True)
         if key in seen:
             continue
@@ -387,6 +434,7 @@ def main(tier):
     cases, impl_results, kinds = [], [], []
     oracle_bad = set()
     fam_count = {}
+    dom = collections.Counter()
     for idx, (kind, spec) in enumerate(specs):
         try:
             case, res, outs, pens = with_watchdog(lambda: impl_case(spec), 20)
@@ -407,6 +455,14 @@ def main(tier):
         kinds.append(kind)
         nontrivial = any(len(r[0]) > 6 for r in res[1:])
         chk.count_case(case, nontrivial)
+        for op in spec["ops"]:
+            if op[0] == "render":
+                okd, wide = in_theorem_domain(op[5], op[3])
+                dom["renders_in_theorem_domain" if okd else "renders_outside_theorem_domain(half-covered wide cell, cursor outside, ...)"] += 1
+                if okd and wide:
+                    dom["renders_in_theorem_domain_with_wide_cells"] += 1
+            elif op[0] == "reset":
+                dom["bare_resets"] += 1
         fails = c06_oracle.check_spec(spec, outs, pens)
         if fails:
             for f in fails:
@@ -430,9 +486,15 @@ def main(tier):
             report_fails(chk, spec, fails, {"stream": "layout"}, "real-layout screens: ", False)
     dist["real_layout_sequences(oracle only)"] = len(lspecs)
     dist["real_layout_renders"] = nl
+    # the terminal model's two debatable choices (erase fills with the CURRENT pen; wrap is deferred):
+    # on the renderer's real output neither is ever exercised, so the verdicts do not depend on them
+    chk.coverage["terminal_choice_sensitive_events"] = {k: CHOICE_EVENTS[k] for k in
+        ("erase_or_scroll_fill_with_pen_other_than_reset", "text_written_while_autowrap_on")}
+    if any(CHOICE_EVENTS.values()):
+        chk.note("terminal-model choices exercised by the real output (BCE / deferred wrap): %r - verdicts may depend on them" % dict(CHOICE_EVENTS))
     chk.coverage["input_distribution"] = dict(dist, corpus=len(corpus),
                                               renders=sum(1 for c in cases for o in c[2] if o[0] == 0),
-                                              oracle_failures_by_clause=fam_count)
+                                              oracle_failures_by_clause=fam_count, **dom)
 
     def tagger(c, a, m):
         for j, (x, y) in enumerate(zip(a, m if isinstance(m, list) else [])):
@@ -477,7 +539,7 @@ def main(tier):
     chk.assumptions += [
         "the terminal is a model: coq/Model/C06_Terminal.v defines the VT100 subset (CUU/CUD/CUF/CUB with parameter 0 = 1, CR, LF, BS, EL, ED with background-colour-erase, SGR as opaque pen, ?7h/l, ?25h/l, CSI H); the compared terminal is BOUNDED: H rows below the origin (H = the size given to the render; assumed free again after every final render, i.e. CPR/height negotiation is outside), a line feed on the last row scrolls and is counted; rows above the origin (scrollback) exist and must stay untouched",
         "SGR strings are opaque pens; which attributes are invisible on a blank is read off the SGR parameters (bold/italic/hidden, and the foreground colour when nothing is drawn with it)",
-        "theorems are for cells of display width 1 (any column index, also beyond the right border or negative); wide cells are covered by correspondence + oracle only; a bare reset() is judged only where the renderer is fresh (after construction, a final render, an erase or a reset)",
+        "theorems are for screens whose visible columns hold narrow cells, wide cells followed by their shadow and not straddling the right edge (wf_screen, transcribed as in_theorem_domain and counted in input_distribution); half-covered wide characters (finding C06-F2) are outside; a bare reset() is judged (and proved) where the cursor is in column 0 - after construction, a final render, an erase, a reset, or a render whose cursor column is 0; elsewhere it is correspondence only",
         "cell texts are single code points (width 1 or 2) or the empty shadow cell; mouse support, cursor shapes, titles, alternate-screen buffer switching and terminal resize reflow are outside the model"]
     return chk.finish()
 
